@@ -49,7 +49,7 @@ META = {
     "ready": False,
     "category": "proof",
     "technique": "Lean 4: totality/range theorems of the reader (from C12), match-arm coverage and panic-site classification decided over tables regenerated from the Rust sources, and a model of the VM's error unwinding / build roll-back with clean-state theorems; plus an exploration of the real engine in crash-isolated child processes (texts: random, grammar-derived, mutated suite scripts; built-ins: every registered procedure on a pool of boundary values) whose oracle is the property itself",
-    "level_text": "Proved (SteelVerif/C07/Props.lean): frontend_total/frontend_spans (reader total, spans in range; re-export of C12); arms_total/arms_total_unary (every pair / every numeric kind reaches a non-panicking arm in each numeric primitive, over tables regenerated from numbers.rs and rvals.rs); panic_sites_classified/reachable_sites_named (each of the ~300 extracted potential panic sites of the primitives is in the hand-reviewed table, reachable ones name their finding); for the model of SteelThread::execute: failed_run_leaves_clean_partial, handler_run_resumes_clean, run_never_panics, failed_forms_keep_completed, history_stays_clean (any fuel, any program, any history of failing and succeeding evaluations: both stacks empty afterwards, executed definitions kept, the pop_count == 0 early return is dead code), failed_build_is_noop_partial (parametric in a symbol map whose roll_back restores). The full statements are kept and refuted by witnesses replayed on the engine (handler that is not a closure: K07a; define-syntax of a failed program: K07z). The model is tied to the engine by generated programs on every run. The property as a whole is partial: panic-freedom of 100k lines of Rust is explored (oracle = the property), not proved; every open failure class is a KNOWN_FINDINGS entry.",
+    "level_text": "Proved (SteelVerif/C07/Props.lean): frontend_total/frontend_spans (reader total, spans in range; re-export of C12); arms_total/arms_total_unary (every pair / every numeric kind reaches a non-panicking arm in each numeric primitive, over tables regenerated from numbers.rs and rvals.rs); panic_sites_classified/reachable_sites_named (each of the ~300 extracted potential panic sites of the primitives is in the hand-reviewed table, reachable ones name their finding); for the model of SteelThread::execute: failed_run_leaves_clean_partial, handler_run_resumes_clean, run_never_panics, failed_forms_keep_completed, history_stays_clean (any fuel, any program, any history of failing and succeeding evaluations: both stacks empty afterwards, executed definitions kept, the pop_count == 0 early return is dead code), failed_build_is_noop_partial (parametric in a symbol map whose roll_back restores). FailedRunLeavesClean holds in full since the repair of K07a (a handler that is not a closure; found by this model, f4f0e66b); FailedBuildIsNoop is kept and refuted by a witness replayed on the engine (define-syntax of a failed program stays defined: K07z). The model is tied to the engine by generated programs on every run. The property as a whole is partial: panic-freedom of 100k lines of Rust is explored (oracle = the property), not proved; every open failure class is a KNOWN_FINDINGS entry.",
     "level_note": "Trusted: Lean kernel, translators, harness, orchestrator. Not modelled: everything outside the reader, the numeric dispatch tables and the recovery machine; native stack size; allocation failure; the JIT.",
 }
 
@@ -232,10 +232,11 @@ FINDING_CLASSES = [
     ("module-level-non-identifier-binder-panics",
      [r"panic:crates/steel-core/src/compiler/passes/analysis\.rs:(visit_lambda_function|visit_top_level_define_value_without_body)"]),
     ("thread-copy-inside-open-continuation-mark-assertion", [r"panic:crates/steel-core/src/steel_vm/vm\.rs:close"]),
-    ("negative-count-becomes-huge", [r"hang:builtin:(range-vec|make-struct-type)", r"abort:out-of-memory:builtin:(range-vec|make-struct-type)"]),
+    # (negative-count-becomes-huge: range-vec, repaired by /repo commit dbe72b10; a huge positive bound is an allocation request)
+    ("make-struct-type-negative-field-count", [r"(hang|abort:out-of-memory):builtin:make-struct-type"]),
     ("unbounded-allocation-request",
      [r"abort:out-of-memory.*", r"abort:capacity-overflow.*", r"panic:library/alloc/src/raw_vec/mod\.rs@.*",
-      r"hang:builtin:(make-bytes|make-bytevector|make-string|make-immutable-vector|make-vector|list-drop|range|expt|exact-integer-sqrt|square|arithmetic-shift)",
+      r"hang:builtin:(make-bytes|make-bytevector|make-string|make-immutable-vector|make-vector|list-drop|range|range-vec|expt|exact-integer-sqrt|square|arithmetic-shift)",
       r"panic:num-bigint/src/biguint/power\.rs@.*"]),
     ("mutable-vector-lock-reentry-deadlock", [r"hang:builtin:(vector-append!|vector-fill!|vector-copy!)", r"hang:evaluation-ignores-interrupt"]),
     ("native-stack-overflow-reader", [r"stack-overflow:read"]),
@@ -396,8 +397,10 @@ def run_builtins(ctx, classes, stats):
             # the quick tier alternates, the thorough tier does both
             wheres = [(sum(map(ord, name)) + a + ctx.seed) % 2] if quick else [0, 1]
             for w in wheres:
-                for s in range(0, total, step):
-                    jobs.append((name, module, a, mode, s, min(total, s + step), w))
+                # (thorough: the exhaustive arity-3 sweep runs at the top level, the module-level loop gets the pairwise one)
+                m2, tot2 = (1, n * n) if (a == 3 and w == 1 and not quick) else (mode, total)
+                for s in range(0, tot2, step):
+                    jobs.append((name, module, a, m2, s, min(tot2, s + step), w))
     stats["sweep_jobs_top_level"] = sum(1 for j in jobs if j[6] == 0)
     stats["sweep_jobs_in_module"] = sum(1 for j in jobs if j[6] == 1)
     stats["builtins"] = len(fns)
@@ -979,17 +982,12 @@ def run_model_correspondence(ctx, classes, stats):
     mism = 0
     for i, ((src, mcode), ml) in enumerate(zip(progs, mlines)):
         rr = res.get("m%d" % i) or {}
-        m = re.match(r"(ok|error|bad-handler|panic|out-of-fuel)\S* ?\S* ?frames=(\d+) stack=(\d+) globals=(\S*)", ml)
-        if not m:
-            m = re.match(r"(ok \d+|error \d+|bad-handler|panic|out-of-fuel) frames=(\d+) stack=(\d+) globals=(\S*)", ml)
         mo = ml.split(" ")[0]
         mf = int(re.search(r"frames=(\d+)", ml).group(1))
         ms = int(re.search(r"stack=(\d+)", ml).group(1))
         rs = rr.get("res", "")
         if rs.startswith("ok"):
             ro = "ok"
-        elif rs.startswith("err") and "expected a function for the exception handler" in rs:
-            ro = "bad-handler"
         elif rs.startswith("err"):
             ro = "error"
         else:
@@ -1024,6 +1022,7 @@ HSEP = "\n;;; next evaluation on the same engine\n"
 MODMARK = ";;; evaluated as a module"
 
 HISTORIES = [
+    # (K07a's witness "handler-not-a-closure-twice" is a regression case since /repo commit f4f0e66b)
     # (name, [(kind, text, expectation)])   kind T = evaluate, X = evaluate and compare; expectation: ("value", s) |
     # ("error", substring) | None
     ("failed-unit-keeps-earlier-definition",
